@@ -130,7 +130,7 @@ class Theory:
 
     def isc(self, cname: str):
         self.used_cls.add(cname)
-        return self.fn('is_' + san(cname), self.Val, self.B)
+        return self.fn('isa_' + san(cname), self.Val, self.B)
 
     def fld(self, name: str):
         return self.fn('fld_' + san(name), self.Val, self.Val)
